@@ -158,6 +158,10 @@ impl PoolInner {
         // new handles to the list, as they would be leaked. Instead, we join
         // them immediately.
         if self.shutdown.load(Ordering::Acquire) {
+            // The shutdown may have signaled the processor states before ours existed, in
+            // which case our workers have not been told to exit yet.
+            state.signal_shutdown();
+
             for handle in new_handles {
                 if let Err(payload) = handle.join() {
                     panic::resume_unwind(payload);
